@@ -2,7 +2,10 @@
 
    Impl  = transcription of baselib.go:loRequire, loModule; loadlib.go:loLoaders,
            loLoaderPreload, loLoaderLua, loFindFile; auxlib.go:RegisterModule, PreloadModule,
-           FindTable (as of the tree after the two `fix:` commits C20-1, C20-2).
+           FindTable (as of the tree after the `fix:` commits C20-1 .. C20-5: the searchers read
+           package.preload / package.path through their environment = the package table, so the
+           global variable `package` plays no role in the model; require iterates
+           package.loaders, which histories of this model never edit: the constant loLoaders).
    Spec  = transcription of Lua 5.1 loadlib.c:ll_require (require51) and lauxlib.c:luaI_openlib
            (register51).
    `require_old` / `register_old` are the transcriptions of the code *before* the fixes; they are
